@@ -75,13 +75,31 @@ fn ints_of(s: &str, n: &Uint) -> Option<Vec<Uint>> {
     s.split(',').map(uint_of).collect()
 }
 
+thread_local! {
+    /// `pfm_*` twins: operands and results are the raw integers held by the `MInt`s (Montgomery forms),
+    /// no `from_int` / `to_int` conversion
+    static RAW: std::cell::Cell<bool> = std::cell::Cell::new(false);
+}
+
+fn raw_mint(x: &Uint) -> MInt {
+    let mut m = MInt::default();
+    m.0.copy_from_slice(&x.digits()[..8]);
+    m
+}
+
 fn poly_of(s: &str, zn: &ZmodN) -> Option<Vec<MInt>> {
+    if RAW.with(|r| r.get()) {
+        return Some(ints_of(s, &zn.n)?.iter().map(raw_mint).collect());
+    }
     Some(ints_of(s, &zn.n)?.into_iter().map(|x| zn.from_int(x)).collect())
 }
 
 fn show_poly(zn: &ZmodN, v: &[MInt]) -> String {
     if v.is_empty() {
         return "-".to_string();
+    }
+    if RAW.with(|r| r.get()) {
+        return v.iter().map(|&m| Uint::from(m).to_string()).collect::<Vec<_>>().join(",");
     }
     v.iter().map(|&m| zn.to_int(m).to_string()).collect::<Vec<_>>().join(",")
 }
@@ -413,6 +431,12 @@ fn poly_op(op: &str, a: &[&str]) -> Option<String> {
 }
 
 pub fn handle(op: &str, a: &[&str]) -> Option<String> {
+    // set on every call (a panic inside a previous call must not leave the flag behind)
+    RAW.with(|r| r.set(op.starts_with("pfm_")));
+    if let Some(rest) = op.strip_prefix("pfm_") {
+        // the same call of the real code, exchanging raw Montgomery-form residues
+        return poly_op(&format!("pf_{rest}"), a);
+    }
     if op.starts_with("pf_") && op != "pf_kron_raw" {
         return poly_op(op, a);
     }
